@@ -95,14 +95,19 @@ func init() {
 	})
 	register(&Property{
 		ID: "C24",
-		Explanation: "Decides coverage and gating in the selection code, not the selected sets: (filter-coverage) SnapshotFilter.matches applies HasHostname(f.Hosts), HasTagList(f.Tags) and HasPaths(f.Paths) to the snapshot and cannot yield true when any of them is false (specialised evaluation); every field of SnapshotFilter is one of these criteria or the time limit; findLatest records a snapshot as latest only behind matches==true, behind 'no limit or not after TimestampLimit', and behind 'no candidate yet or not before the current candidate'; FindAll's listing callback sees a snapshot only if it matches or failed to load; HasHostname and HasTagList return true for an empty list and HasHostname is otherwise membership of sn.Hostname, HasPaths tests the requested paths against the set of sn.Paths; (group-key) GroupSnapshots puts a snapshot's tags/hostname/paths into the key only on the corresponding groupBy edge (empty otherwise), sorts tags and paths before the key is encoded when grouping by them, and appends the snapshot to the group stored under its own key. Not decided: that the sets selected are exactly the satisfying snapshots (tag-list semantics, path normalisation), and tie-breaking of 'latest'.",
+		Explanation: "Decides coverage and gating in the selection code, not the selected sets: (filter-coverage) SnapshotFilter.matches applies HasHostname(f.Hosts), HasTagList(f.Tags) and HasPaths(f.Paths) to the snapshot and cannot yield true when any of them is false (specialised evaluation); every field of SnapshotFilter is one of these criteria or the time limit; findLatest records a snapshot as latest only behind matches==true, behind 'no limit or not after TimestampLimit', and behind 'no candidate yet or not before the current candidate'; FindAll's listing callback sees a snapshot only if it matches or failed to load; HasHostname and HasTagList return true for an empty list and HasHostname is otherwise membership of sn.Hostname, HasPaths tests the requested paths against the set of sn.Paths; (group-key) GroupSnapshots puts a snapshot's tags/hostname/paths into the key only on the corresponding groupBy edge (empty otherwise), sorts tags and paths before the key is encoded when grouping by them, and appends the snapshot to the group stored under its own key; (filter-negatives-justified) HasPaths returns false only behind the miss edge of looking a requested path up among the snapshot's paths, HasTags only behind hasTag(tag)==false — no shortcut on lengths, which is wrong once the request repeats an entry (added after a seeded change); (tag-list-conjunction) HasTags answers yes only after its loop over the requested tags ran to its end — genuine defect, fixed in /repo: the empty tag ended the evaluation for untagged snapshots. Not decided: that the sets selected are exactly the satisfying snapshots (tag-list semantics, path normalisation), and tie-breaking of 'latest'.",
 		Assumptions: commonAssumptions,
 		Technique:   "static analysis: criterion/predicate pairing enumerated from the filter type + specialised path evaluation + CFG edge cuts (go/ssa, go/types)",
 		Run: func(c *eng.Ctx) {
 			ruleFilterCoverage(c)
 			ruleGroupKey(c)
+			ruleFilterNegativesJustified(c); ruleTagListConjunction(c)
 		},
 		Controls: []Control{
+			{Name: "empty-tag-ends-the-list", File: "internal/data/snapshot.go",
+				Old: "			// the empty tag stands for \"has no tags\", the rest of the list still applies\n			continue\n", New: "			return true\n", Rule: "tag-list-conjunction"},
+			{Name: "tag-filter-rejects-by-count", File: "internal/data/snapshot.go",
+				Old: "func (sn *Snapshot) HasTags(l []string) bool {\n	for _, tag := range l {", New: "func (sn *Snapshot) HasTags(l []string) bool {\n	if len(l) > len(sn.Tags)+1 {\n		return false\n	}\n	for _, tag := range l {", Rule: "filter-negatives-justified"},
 			{Name: "paths-criterion-ignored", File: "internal/data/snapshot_find.go",
 				Old: "	return sn.HasHostname(f.Hosts) && sn.HasTagList(f.Tags) && sn.HasPaths(f.Paths)", New: "	return sn.HasHostname(f.Hosts) && sn.HasTagList(f.Tags)", Rule: "filter-coverage"},
 			{Name: "criteria-disjunctive", File: "internal/data/snapshot_find.go",
@@ -138,11 +143,15 @@ func init() {
 	})
 	register(&Property{
 		ID: "C28",
-		Explanation: "Decides the totality clause only ('no pattern or path causes a panic', errors are reported), not the glob semantics: (pattern-totality) every call of preparePattern, which reads patternStr[0], lies behind a non-empty test of that string (Match, ChildMatch, ParsePatterns); in both CollectPatterns functions each matcher constructor is reached only after ValidatePatterns succeeded on the same list, and patterns read from files are validated before they are merged into the option lists; the case-insensitive constructors build their matcher from strings.ToLower of every pattern and apply ToLower to the item; list ends with the error of match / childMatch / prepareStr, match with the error of filepath.Match, and prepareStr splits only non-empty paths. Not decided: that `**`, relative patterns, directory coverage and negation behave as documented, that childMatch is never false when a descendant matches, and the index arithmetic inside match (expansion of `**`).",
+		Explanation: "Decides the totality clause only ('no pattern or path causes a panic', errors are reported), not the glob semantics: (pattern-totality) every call of preparePattern, which reads patternStr[0], lies behind a non-empty test of that string (Match, ChildMatch, ParsePatterns); in both CollectPatterns functions each matcher constructor is reached only after ValidatePatterns succeeded on the same list, and patterns read from files are validated before they are merged into the option lists; the case-insensitive constructors build their matcher from strings.ToLower of every pattern and apply ToLower to the item; list ends with the error of match / childMatch / prepareStr, match with the error of filepath.Match, and prepareStr splits only non-empty paths; (first-double-wildcard) hasDoubleWildcard returns at the first empty part (the position childMatch cuts the path at, behind which nothing of the pattern is static) and childMatch cuts at exactly the reported position — added after a seeded change that reported the last `**`, which pruned directories containing matches.; (doublestar-bound) the loop in match that expands the first `**` into 0..n single wildcards is not bounded through len(pattern.parts), which counts every further `**` as a mandatory component — genuine defect, fixed in /repo: /a/**/b/**/c did not match /a/b/c. Not decided: that `**`, relative patterns, directory coverage and negation behave as documented in general, that childMatch is never false when a descendant matches, and the remaining index arithmetic inside match.",
 		Assumptions: commonAssumptions,
 		Technique:   "static analysis: call-site enumeration with dominating-guard cuts + path-sensitive error propagation (go/ssa)",
-		Run:         func(c *eng.Ctx) { rulePatternTotality(c) },
+		Run:         func(c *eng.Ctx) { rulePatternTotality(c); ruleFirstDoubleWildcard(c); ruleDoubleStarBound(c) },
 		Controls: []Control{
+			{Name: "expansion-bound-counts-other-doublestars", File: "internal/filter/filter.go",
+				Old: "i <= len(strs)-fixed; i++", New: "i <= len(strs)-len(pattern.parts)+1; i++", Rule: "doublestar-bound"},
+			{Name: "childmatch-cuts-one-component-late", File: "internal/filter/filter.go",
+				Old: "		strs = strs[:pos]\n", New: "		strs = strs[:pos+1]\n", Rule: "first-double-wildcard"},
 			{Name: "parsepatterns-keeps-empty-pattern", File: "internal/filter/filter.go",
 				Old: "		if pat == \"\" {\n			continue\n		}\n\n		pats := preparePattern(pat)", New: "		pats := preparePattern(pat)", Rule: "pattern-totality"},
 			{Name: "exclude-patterns-not-validated", File: "internal/filter/exclude.go",
